@@ -151,7 +151,8 @@ def deduplicate(stix_obj_list):
         if ver is None:
             unique_objs[obj["id"]] = obj
         else:
-            unique_objs[(obj['id'], ver)] = obj
+            # (the instant: dicts may spell the same version differently)
+            unique_objs[(obj['id'], _timestamp_sort_key(ver))] = obj
 
     return list(unique_objs.values())
 
